@@ -383,6 +383,67 @@ func evalC16(op string, args []string) string {
 	}()
 	o.events = nil
 	d, err := p.Parse(o.handle("root", text))
+	if len(text)%4 == 1 {
+		// … and concurrently: three goroutines parse other texts through the same Parser value while a fourth
+		// parses this one again; it must read what the sequential parse read
+		render := func(d *dictionary.Dictionary, err error) string {
+			if err != nil {
+				f := dpClassify(err)
+				return "err " + f.class + " " + itoa(f.line)
+			}
+			if d == nil {
+				return "err Other 0"
+			}
+			return "ok " + dpShowDict(d)
+		}
+		want := render(d, err)
+		others := [][]byte{
+			[]byte("ATTRIBUTE Conc-A 1 string\nATTRIBUTE Conc-B 2 octets[4] encrypt=1\nVENDOR ConcV 77 format=2,1\nBEGIN-VENDOR ConcV\nATTRIBUTE Conc-D 1 ipaddr\nEND-VENDOR ConcV\n"),
+			[]byte("VALUE Nope x 1\n"),
+			[]byte("ATTRIBUTE Conc-E 9 integer has_tag\nVALUE Conc-E One 1\nVALUE Conc-E Two 0x2\n"),
+		}
+		got := make(chan string, 1)
+		done := make(chan struct{}, len(others))
+		start := make(chan struct{})
+		for _, t := range others {
+			t := t
+			oo := newDpOpener()
+			go func() {
+				defer func() { recover(); done <- struct{}{} }()
+				<-start
+				for k := 0; k < 20; k++ {
+					pp := p // (a copy of the struct shares whatever the fields point to; use the value itself)
+					_ = pp
+					p.Parse(oo.handle("other", t))
+				}
+			}()
+		}
+		o2 := newDpOpener()
+		go func() {
+			defer func() {
+				if recover() != nil {
+					got <- "PANIC"
+				}
+			}()
+			<-start
+			r := ""
+			for k := 0; k < 20; k++ {
+				r = render(p.Parse(o2.handle("root", text)))
+				if r != want {
+					break
+				}
+			}
+			got <- r
+		}()
+		close(start)
+		r := <-got
+		for range others {
+			<-done
+		}
+		if r != want {
+			return "concurrent-parse-differs sequential: " + want + " concurrent: " + r
+		}
+	}
 	if err != nil {
 		f := dpClassify(err)
 		return "err " + f.class + " " + itoa(f.line)
@@ -1233,6 +1294,29 @@ func (c *dpCtx) fault(fk dpFaultKind, st *dpState, later []*dpVendor) (dpFaultLi
 				return no, false
 			}
 			name = o.name
+		} else if g.Chance(1, 2) {
+			// the open vendor's own name in another letter case: names are compared octet by octet
+			flipped := []byte(st.cur.name)
+			changed := false
+			for i, b := range flipped {
+				switch {
+				case b >= 'a' && b <= 'z':
+					flipped[i], changed = b-32, true
+				case b >= 'A' && b <= 'Z':
+					flipped[i], changed = b+32, true
+				}
+			}
+			if changed {
+				known := false
+				for _, v := range st.vendors {
+					if v.name == string(flipped) {
+						known = true
+					}
+				}
+				if !known {
+					name = string(flipped)
+				}
+			}
 		}
 		return dpFaultLine{fields: []string{"END-VENDOR", name}, class: "InvalidEndVendor", ign: "0"}, true
 	case fUnmatchedKnown, fUnmatchedFresh:
